@@ -541,7 +541,10 @@ pub fn judge_q(case: &QCase, end: &SimEnd, o: &QObs) -> (Vec<Violation>, bool) {
             v.push(viol("C19", "deadlock", format!("certification run deadlocked: {}", t.chars().take(300).collect::<String>())));
             return (v, false);
         }
-        SimEnd::StepBound => return (v, true),
+        SimEnd::StepBound => {
+            v.push(viol("C19", "livelock", format!("the run never came to rest: {} scheduler steps without quiescence", crate::sched::MAX_STEPS)));
+            return (v, false);
+        }
     }
     let mut inconclusive = false;
     for (k, r) in o.canon_results.iter().enumerate() {
